@@ -25,18 +25,19 @@ type loop struct {
 }
 
 type World struct {
-	c      *hx.Ctx
-	prod   *bm.Env
-	full   *bm.Env
-	lp     *loop
-	opt    bm.Options
-	from   int // write index where the last delivery began
-	dead   bool
-	hdrDel map[uint64]bool // ghost: delivered so far
-	datDel map[uint64]bool
-	lastH  uint64
-	execN  int
-	cause  string // after a crash: between which two durable writes it fell ("" = no crash so far)
+	c       *hx.Ctx
+	prod    *bm.Env
+	full    *bm.Env
+	lp      *loop
+	opt     bm.Options
+	from    int // write index where the last delivery began
+	dead    bool
+	hdrDel  map[uint64]bool // ghost: delivered so far
+	datDel  map[uint64]bool
+	junkDel map[uint64]bool // ghost: heights for which junk data (unauthenticated P2P data not matching the header) was delivered
+	lastH   uint64
+	execN   int
+	cause   string // after a crash: between which two durable writes it fell ("" = no crash so far)
 }
 
 // rep reports a violation; after a crash every finding is attributed to the crash point.
@@ -111,6 +112,18 @@ func (w *World) settle() bool {
 			return true
 		}
 		time.Sleep(20 * time.Microsecond)
+	}
+}
+
+// the data event is on another channel than the sentinel: wait until it has been taken
+func (w *World) waitDataTaken() {
+	for i := 0; len(w.full.M.VerifDataInCh()) != 0 && i < 200000; i++ {
+		select {
+		case <-w.lp.done:
+			i = 200000
+		default:
+			time.Sleep(20 * time.Microsecond)
+		}
 	}
 }
 
@@ -224,7 +237,7 @@ func Run(c *hx.Ctx) {
 				continue
 			}
 			w.prod = p
-			w.hdrDel, w.datDel = map[uint64]bool{}, map[uint64]bool{}
+			w.hdrDel, w.datDel, w.junkDel = map[uint64]bool{}, map[uint64]bool{}, map[uint64]bool{}
 			w.cause = ""
 			c.Emit("%s", w.startFull(nil, ""))
 			w.lastH = w.full.Height()
@@ -262,19 +275,42 @@ func Run(c *hx.Ctx) {
 					if len(d.Txs) > 0 {
 						w.datDel[k] = true
 					}
-					// the data event is on another channel than the sentinel: wait until it has been taken
-					for i := 0; len(w.full.M.VerifDataInCh()) != 0 && i < 200000; i++ {
-						select {
-						case <-w.lp.done:
-							i = 200000
-						default:
-							time.Sleep(20 * time.Microsecond)
-						}
-					}
+					w.waitDataTaken()
 				}
 				if !w.settle() {
 					w.dead = true
-					c.Report("C02/loop-terminated", fmt.Sprintf("SyncLoop returned while handling %s h=%d", o.Verb, k))
+					w.rep(w.classifyDeath(), fmt.Sprintf("SyncLoop returned while handling %s h=%d", o.Verb, k))
+				}
+			}
+			c.Emit("%s", w.observe())
+			w.monitor()
+		case "junkdat":
+			// P2P data is NOT authenticated (types.Data carries no signature, Data.Validate() is a no-op, go-header's
+			// Verify only checks LastDataHash): anybody can gossip a Data that names the genuine chain id / height / time
+			// of block h but carries other transactions.  DataStoreRetrieveLoop hands it to dataInCh unchanged.
+			if w.prod == nil || w.full == nil || w.full.M == nil {
+				c.Emit("dead")
+				continue
+			}
+			k, _ := o.U64("h")
+			_, d, err := w.prod.Store.GetBlockData(context.Background(), k)
+			if err != nil || k > w.prod.Height() {
+				c.Emit("no-such-block")
+				continue
+			}
+			w.from = w.full.DS.NumWrites()
+			if !w.dead {
+				md := *d.Metadata
+				junk := &types.Data{Metadata: &md}
+				for _, tx := range o.List("txs") {
+					junk.Txs = append(junk.Txs, types.Tx(tx))
+				}
+				w.full.M.VerifDataInCh() <- block.NewDataEvent{Data: junk, DAHeight: 0}
+				w.junkDel[k] = true
+				w.waitDataTaken()
+				if !w.settle() {
+					w.dead = true
+					w.rep(w.classifyDeath(), fmt.Sprintf("SyncLoop returned while handling junk data claiming h=%d", k))
 				}
 			}
 			c.Emit("%s", w.observe())
@@ -357,6 +393,16 @@ func (w *World) monitor() {
 	if r := w.ready(); h < r {
 		w.rep(w.classifyStall(h), fmt.Sprintf("both parts of all blocks up to %d were delivered but the node is at %d", r, h))
 	}
+}
+
+// classifyDeath: the sync loop returned.  The one recognised cause: the data cached for the next height is junk (it was
+// delivered by a junkdat op, i.e. unauthenticated P2P data not matching the header) and the header of that height is there.
+func (w *World) classifyDeath() string {
+	next := w.full.Height() + 1
+	if w.junkDel[next] && w.hdrDel[next] {
+		return "C02/loop-terminated/junk-p2p-data-for-next-height"
+	}
+	return "C02/loop-terminated"
 }
 
 func (w *World) classifyStall(h uint64) string {
